@@ -149,7 +149,9 @@ def extract_default(
                 "str": str,
             }[typ](lit)
         )
-    elif default.isdecimal():
+    elif default.isdecimal() or (
+        default[:1] in frozenset(("-", "+")) and default[1:].isdecimal()
+    ):
         default = int(default)
     elif default in frozenset(("True", "False")):
         default = literal_eval(default)
